@@ -193,6 +193,8 @@ def _is_variant(k):
 
 def m_unwrap(some_idx):
     def h(eng, ctx, f, path, args, dty):
+        if isinstance(args[0], Opaque):
+            return Opaque("unwrap of " + args[0].what)       # a value the check does not depend on stays one
         e = _enum_of(eng, ctx, args[0])
         ok = eng.discr_is(e.discr, some_idx)
         payload = e.v.get(some_idx, Agg()).f.get(0, UNIT)
@@ -225,6 +227,87 @@ def m_option_copied(eng, ctx, f, path, args, dty):
             return Enum(0, {}, "Option")
         return Fork([(isn, lambda c: Enum(1, {1: Agg({0: eng.load_ptr(c, inner)})}, "Option")), (z3.Not(isn), Enum(0, {}, "Option"))])
     return e
+
+
+def _concrete_result(e, what):
+    if not (isinstance(e, Enum) and isinstance(e.discr, int)):
+        raise Unsupported(f"{what} on a Result whose variant is symbolic here: {e}")
+    return e
+
+
+def _payload(e, k):
+    return e.v.get(k, Agg()).f.get(0, UNIT)
+
+
+def _then_wrap(eng, ctx, clo, arg, wrap):
+    """call `clo(arg)` (closure or fn item, straight-line) and wrap the result"""
+    from .models_reg import run_closure
+    if isinstance(clo, Closure):
+        return wrap(run_closure(eng, ctx, clo, [arg]))
+    if isinstance(clo, FnItem):
+        norm = norm_callee(clo.path)
+        for pat, h in eng.models.items():
+            if not pat.startswith("__") and re.search(pat, norm):
+                eng.callees_modelled.add(norm)
+                return wrap(h(eng, ctx, None, clo.path, [arg], None))
+    raise Unsupported(f"call of {clo} inside a Result combinator")
+
+
+def m_res_map_err2(eng, ctx, f, path, args, dty):
+    e = _concrete_result(_enum_of(eng, ctx, args[0]), "map_err")
+    if e.discr == 0:
+        return e
+    return _then_wrap(eng, ctx, args[1], _payload(e, 1), lambda r: Enum(1, {1: Agg({0: r})}, "Result"))
+
+
+def m_res_map(eng, ctx, f, path, args, dty):
+    e = _concrete_result(_enum_of(eng, ctx, args[0]), "map")
+    if e.discr == 1:
+        return e
+    return _then_wrap(eng, ctx, args[1], _payload(e, 0), lambda r: Enum(0, {0: Agg({0: r})}, "Result"))
+
+
+def m_res_or_else(eng, ctx, f, path, args, dty):
+    e = _concrete_result(_enum_of(eng, ctx, args[0]), "or_else")
+    if e.discr == 0:
+        return e
+    return TailCall(args[1], [_payload(e, 1)])
+
+
+def m_res_and_then(eng, ctx, f, path, args, dty):
+    e = _concrete_result(_enum_of(eng, ctx, args[0]), "and_then")
+    if e.discr == 1:
+        return e
+    return TailCall(args[1], [_payload(e, 0)])
+
+
+def m_res_or(eng, ctx, f, path, args, dty):
+    e = _concrete_result(_enum_of(eng, ctx, args[0]), "or")
+    return e if e.discr == 0 else args[1]
+
+
+def m_res_ok(eng, ctx, f, path, args, dty):
+    e = _concrete_result(_enum_of(eng, ctx, args[0]), "ok")
+    return Enum(1, {1: Agg({0: _payload(e, 0)})}, "Option") if e.discr == 0 else Enum(0, {}, "Option")
+
+
+def m_res_branch(eng, ctx, f, path, args, dty):
+    e = _concrete_result(_enum_of(eng, ctx, args[0]), "Try::branch")
+    if e.discr == 0:
+        return Enum(0, {0: Agg({0: _payload(e, 0)})}, "ControlFlow")
+    return Enum(1, {1: Agg({0: Enum(1, {1: Agg({0: _payload(e, 1)})}, "Result")})}, "ControlFlow")
+
+
+RESULT = {
+    r"(^|::)Result::map_err$": m_res_map_err2,
+    r"(^|::)Result::map$": m_res_map,
+    r"(^|::)Result::or_else$": m_res_or_else,
+    r"(^|::)Result::and_then$": m_res_and_then,
+    r"(^|::)Result::or$": m_res_or,
+    r"(^|::)Result::ok$": m_res_ok,
+    r"^<Result as Try>::branch$": m_res_branch,
+    r"^<Result as FromResidual>::from_residual$": m_identity,
+}
 
 
 def _arith(fn):
